@@ -1128,8 +1128,11 @@ pub fn chain_main(ctx: &Ctx, dir: &str, index: u64) -> i32 {
     };
     let names: Vec<String> = pool.keys().cloned().collect();
     let mut rng = Rng::new(stream_seed(ctx.seed, "C15", index));
+    // most chains are short; every eighth one is long, so that bounded caches and counters inside
+    // the process see many more distinct (file, number) combinations than they can hold
+    let n_scn = if index % 8 == 7 { SCN_PER_CHAIN * 8 } else { SCN_PER_CHAIN };
     let mut scenarios = vec![];
-    for _ in 0..SCN_PER_CHAIN {
+    for _ in 0..n_scn {
         scenarios.push(gen_scn(&mut rng, &names));
     }
     let chain = Chain { pool, scenarios };
@@ -1484,7 +1487,7 @@ impl Property for C15 {
         ]
     }
     fn rule(&self) -> String {
-        format!("Baseline: for a seeded pool of screened texts (incl. pairs of equal length with different line structure and pairs of different texts padded to equal length) every (text, default pattern) verdict is computed by one call in a fresh child process. Each evaluation is one scenario of a chain: a chain is {} scenarios executed in one child process with nothing reset in between; a scenario is 2-4 tasks on real OS threads passing a baton (the seeded order says which thread performs the next operation), operations are analyze_for_*(text, arbitrary file_no, pattern), repeated calls, and analyze_dir over private worlds embedding pool files (unique names) among varying siblings, depths, listing orders, pattern subsets and orders. A third of the scenarios are fine-grained: 2-5 threads make direct calls (preferring deeply nested texts, 10-32 levels) and the baton changes hands at the cooperative yield points inside the AST walker (guarded hook), with a seeded switch probability of 1/2 .. 1/64 per point, so calls of different threads are interleaved mid-walk, one thread running at a time. Every observation (direct result, or the entry/absence attributable to that file in a directory result) must equal the baseline. Non-trivial = the chain contains a task switch between two operations touching the same text; distinct = distinct baton order. Replay and every minimisation step run in a fresh process and recompute the baseline.", SCN_PER_CHAIN)
+        format!("Baseline: for a seeded pool of screened texts (incl. pairs of equal length with different line structure and pairs of different texts padded to equal length) every (text, default pattern) verdict is computed by one call in a fresh child process. Each evaluation is one scenario of a chain: a chain is {} scenarios (every eighth chain: eight times as many) executed in one child process with nothing reset in between; a scenario is 2-4 tasks on real OS threads passing a baton (the seeded order says which thread performs the next operation), operations are analyze_for_*(text, arbitrary file_no, pattern), repeated calls, and analyze_dir over private worlds embedding pool files (unique names) among varying siblings, depths, listing orders, pattern subsets and orders. A third of the scenarios are fine-grained: 2-5 threads make direct calls (preferring deeply nested texts, 10-32 levels) and the baton changes hands at the cooperative yield points inside the AST walker (guarded hook), with a seeded switch probability of 1/2 .. 1/64 per point, so calls of different threads are interleaved mid-walk, one thread running at a time. Every observation (direct result, or the entry/absence attributable to that file in a directory result) must equal the baseline. Non-trivial = the chain contains a task switch between two operations touching the same text; distinct = distinct baton order. Replay and every minimisation step run in a fresh process and recompute the baseline.", SCN_PER_CHAIN)
     }
     fn assumptions(&self) -> Vec<String> {
         vec![
